@@ -49,33 +49,15 @@ def run(ctx):
     # ------------------------------------------------------------------ R1
     ctx.rule("C04.R1", "each range guard accepts exactly the field's interval", floor=9)
     el = ctx.fn(P + "expect_lit")
+    # the range check may be a local closure, a helper method or written in line: look at expect_lit with the closure (if any) inlined
     cls = [n for n in prog.fns if n.startswith(P + "expect_lit::{closure") and prog.fns[n].local_ty(0) == "bool"
            and prog.fns[n].arg_count == 2 and prog.fns[n].local_ty(2) == "u16"]
-    ctx.need(len(cls) == 1, "range-check closure of expect_lit (bool fn(u16)): %s" % cls)
-    cf = prog.fns[cls[0]]
-    ctx.analysed_fns.add(cls[0])
-    # the guard's result decides Ok / Err in expect_lit
-    calls = [b for b, t, c in el.calls() if c == cls[0] or (c and c.endswith("Fn::call") or c and c.endswith("FnMut::call_mut") or c and c.endswith("FnOnce::call_once"))
-             and cls[0] in " ".join(t["f"].get("closures", []))]
-    direct = [b for b, t, c in el.calls() if c == cls[0]]
-    gb = direct or calls
-    ctx.need(len(gb) == 1, "call of the range-check closure in expect_lit")
-    nb = el.term(gb[0])["t"]
-    tt = el.term(nb)
-    ctx.need(tt["k"] == "switch", "branch on the range check")
-    tg = {v: x for v, x in tt["targets"]}
-    t_true = tt["otherwise"] if 0 in tg else tg.get(1)
-    t_false = tg.get(0, tt["otherwise"])
-    ok_ret = [b for b, i, s in el.assigns() if s["p"]["l"] == 0 and place_is_local(s["p"]) and s["r"]["k"] == "agg" and s["r"].get("variant") == "Ok"]
-    err_ret = [b for b, i, s in el.assigns() if s["p"]["l"] == 0 and place_is_local(s["p"]) and s["r"]["k"] == "agg" and s["r"].get("variant") == "Err"]
-    ok = ok_ret and all(el.dominates(t_true, b) for b in ok_ret) and any(el.dominates(t_false, b) for b in err_ret)
-    ctx.oblig(ok, {"expect_lit": "Ok only if the range check passed, Err if it failed"}, "dominance")
-    if not ok:
-        ctx.violation("guard-not-deciding", el.file_line(), "expect_lit's result does not depend on its range check (Ok must be dominated by the true edge, Err by the false edge)")
-    # the checked value is the literal's value
-    a = expr_str(el.expr(el.term(gb[0])["args"][-1], 6, stop={"named"}))
-    ok = "val" in a
-    ctx.oblig(ok, {"checked value": a}, "the literal")
+    el2 = kit.inlined_view(prog, el, set(cls))
+    BITS = "lace::parser::Bits"
+    bsw = list(kit.discr_switches(el2, BITS))
+    ctx.need(bsw, "match on Bits (signedness of the field) in expect_lit")
+    sb_ = min(bsw, key=lambda x: x[0])[0]
+    cf = el2
     # (variant, width) constants reaching the guard
     combos = set()
     bits_struct = res.structs(el, ("arg", 2, "bits"))
@@ -85,7 +67,7 @@ def run(ctx):
         ctx.need(vs is not None, "constant width in %s" % expr_str(agg))
         for v in vs:
             combos.add((agg[1][2], v))
-    tree = formula.decision(cf)
+    tree = formula.decision(el2, start=sb_)
     tree = formula.map_tree(tree, lambda c: kit.resolve_promoteds(prog, c))
     full = ctx.tier == "thorough"
     ncell = 0
@@ -93,36 +75,28 @@ def run(ctx):
         ctx.instance(1)
         vidx = {"Signed": 0, "Unsigned": 1}[variant]
 
-        def subst(e, _n=n, _v=vidx):
-            s = None
-            if e[0] == "discr":
+        def subst(e, _n=n, _v=vidx, _raw=[None]):
+            if e[0] == "discr" and e[2] == BITS:
                 return _v
             if e[0] == "field" and e[2] == "0" and e[1][0] == "downcast" and e[1][2] in ("Signed", "Unsigned"):
                 return _n
+            if e[0] in ("local", "arg") and e[2] == "val":
+                return subst.raw
             return None
         bad = None
         pts = range(0x10000) if full else cells(variant, n)
         for raw in pts:
             ncell += 1
+            subst.raw = raw
             try:
-                lab = formula.eval_decision(tree, {"args": {"val": raw, 2: raw}, "subst": subst})
+                lab = formula.eval_decision(tree, {"subst": subst, "prog": prog})
             except formula.Overflow as ex:
                 bad = (raw, "panics: %s" % ex.what)
                 break
             except formula.Unknown as ex:
                 bad = (raw, "undecidable: %s" % ex)
                 break
-            got = lab in (("const", 1), 1, True) or (isinstance(lab, tuple) and lab[0] == "call" and False)
-            if lab is not None and isinstance(lab, tuple) and lab[0] == "call":
-                # the closure returns the result of Range::contains directly
-                try:
-                    got = bool(formula.evaluate(kit.resolve_promoteds(prog, lab), {"args": {"val": raw, 2: raw}, "subst": subst}))
-                except formula.Overflow as ex:
-                    bad = (raw, "panics: %s" % ex.what)
-                    break
-                except formula.Unknown as ex:
-                    bad = (raw, "undecidable: %s" % ex)
-                    break
+            got = formula.label_variant(lab) == "Ok"
             want = spec_accepts(variant, n, raw)
             if got != want:
                 bad = (raw, "guard %s, statement %s" % ("accepts" if got else "rejects", "accepts" if want else "rejects"))
@@ -280,11 +254,14 @@ def run(ctx):
     labs = {}
     for case in ("Some", "None"):
         def subst(e, _c=case):
+            # the origin recorded so far, however it is examined (`if let Some(_)`, `match`, `.is_some()`, `.is_none()`)
+            if e[0] == "field" and e[2] == "orig":
+                return ("variant", _c, "core::option::Option", (0x3000,) if _c == "Some" else ())
             if e[0] == "discr":
                 return 1 if _c == "Some" else 0
             return None
         try:
-            lab = formula.eval_decision(tree, {"subst": subst})
+            lab = formula.eval_decision(tree, {"subst": subst, "prog": prog})
             labs[case] = formula.label_variant(lab)
         except (formula.Unknown, formula.Overflow) as ex:
             labs[case] = "?%s" % ex
